@@ -264,23 +264,23 @@ pub fn spec(h: &Hist) -> SpecOut {
 // ---------------------------------------------------------------------------------------------
 // one history: implementation, oracle, correspondence case
 
-pub fn judge(out: &mut Out, real: &mut Real, h: &Hist, interleaved: bool) {
-    let line = op_line(h);
+pub fn evaluate(real: &mut Real, h: &Hist, interleaved: bool) -> Verdict {
+    let mut v = Verdict::default();
     let sp = spec(h);
     let res = real.run(h, interleaved);
     let Some(recs) = res else {
-        out.case(&line, "panic");
+        v.answer = ("panic").to_string();
         if sp.unrepresentable {
-            out.stat("panic:first+w beyond u128 (outside the property)");
+            v.stat("panic:first+w beyond u128 (outside the property)");
         } else {
-            out.fail("panic", &line, "deduplicate_messages panicked");
+            v.fail("panic", "deduplicate_messages panicked");
         }
-        return;
+        return v;
     };
     if sp.unrepresentable {
-        out.case(&line, "no-panic");
-        out.fail("no-panic", &line, "first + w overflows u128 but the loop did not panic (overflow-checks off?)");
-        return;
+        v.answer = ("no-panic").to_string();
+        v.fail("no-panic", "first + w overflows u128 but the loop did not panic (overflow-checks off?)");
+        return v;
     }
     // ---- canonical answer
     let mut ans = String::from("ok ");
@@ -300,7 +300,7 @@ pub fn judge(out: &mut Out, real: &mut Real, h: &Hist, interleaved: bool) {
     // receptions of decodable frames that arrived and did not come out
     let arrived_decodable: usize = h.arrivals.iter().filter(|a| h.frames[a.fi].1).map(|a| a.rx.len()).sum();
     ans.push_str(&format!(" p={}", arrived_decodable as i64 - emitted_decodable as i64));
-    out.case(&line, &ans);
+    v.answer = (&ans).to_string();
 
     // ---- property-level oracle
     let by_id: BTreeMap<u64, (usize, u64)> =
@@ -308,35 +308,35 @@ pub fn judge(out: &mut Out, real: &mut Real, h: &Hist, interleaved: bool) {
     let mut seen: BTreeSet<u64> = BTreeSet::new();
     for r in &recs {
         let Some(fi) = h.frames.iter().position(|f| f.0 == r.frame) else {
-            out.fail("invented", &line, &format!("record with unknown frame {}", hex(&r.frame)));
+            v.fail("invented", &format!("record with unknown frame {}", hex(&r.frame)));
             continue;
         };
         if !h.frames[fi].1 {
-            out.fail("shape", &line, &format!("record for undecodable frame {}", hex(&r.frame)));
+            v.fail("shape", &format!("record for undecodable frame {}", hex(&r.frame)));
         }
         if r.message.is_none() {
-            out.fail("shape", &line, "record without decoded message");
+            v.fail("shape", "record without decoded message");
         }
         let mut last: Option<u64> = None;
         for m in &r.metadata {
             let Some(id) = m.nanoseconds else {
-                out.fail("invented", &line, "metadata entry without id");
+                v.fail("invented", "metadata entry without id");
                 continue;
             };
             match by_id.get(&id) {
-                None => out.fail("invented", &line, &format!("reception {id} never arrived")),
+                None => v.fail("invented", &format!("reception {id} never arrived")),
                 Some((i, s)) => {
                     if h.arrivals[*i].fi != fi || *s != m.serial {
-                        out.fail("invented", &line, &format!("reception {id} attached to the wrong frame/receiver"));
+                        v.fail("invented", &format!("reception {id} attached to the wrong frame/receiver"));
                     }
                 }
             }
             if !seen.insert(id) {
-                out.fail("duplicated", &line, &format!("reception {id} emitted twice"));
+                v.fail("duplicated", &format!("reception {id} emitted twice"));
             }
             if let Some(l) = last {
                 if id <= l {
-                    out.fail("shape", &line, &format!("receptions out of arrival order: {l} before {id}"));
+                    v.fail("shape", &format!("receptions out of arrival order: {l} before {id}"));
                 }
             }
             last = Some(id);
@@ -354,7 +354,7 @@ pub fn judge(out: &mut Out, real: &mut Real, h: &Hist, interleaved: bool) {
         if (i..h.arrivals.len()).any(|j| m.checked_add(h.w as u128).is_some_and(|e| tms[j] >= e)) {
             for (_, id) in &a.rx {
                 if !seen.contains(id) {
-                    out.fail("lost", &line, &format!("reception {id} not emitted although its window has closed"));
+                    v.fail("lost", &format!("reception {id} not emitted although its window has closed"));
                 }
             }
         }
@@ -366,10 +366,10 @@ pub fn judge(out: &mut Out, real: &mut Real, h: &Hist, interleaved: bool) {
             for l in k + 1..recs.len() {
                 let (a, b) = (ms(recs[k].timestamp), ms(recs[l].timestamp));
                 if a > b {
-                    out.fail("order", &line, &format!("record {k} (first arrival {a}) left before record {l} (first arrival {b})"));
+                    v.fail("order", &format!("record {k} (first arrival {a}) left before record {l} (first arrival {b})"));
                 }
                 if recs[k].frame == recs[l].frame && b < a + h.w as u128 {
-                    out.fail("spacing", &line, &format!("records {k},{l} of one frame have first arrivals {a},{b} closer than {}", h.w));
+                    v.fail("spacing", &format!("records {k},{l} of one frame have first arrivals {a},{b} closer than {}", h.w));
                 }
             }
         }
@@ -385,17 +385,79 @@ pub fn judge(out: &mut Out, real: &mut Real, h: &Hist, interleaved: bool) {
         .collect();
     if got != sp.records {
         let k = (0..got.len().max(sp.records.len())).find(|&k| got.get(k) != sp.records.get(k)).unwrap();
-        out.fail("records", &line, &format!("record {k}: got {:?}, the group semantics gives {:?}", got.get(k), sp.records.get(k)));
+        v.fail("records", &format!("record {k}: got {:?}, the group semantics gives {:?}", got.get(k), sp.records.get(k)));
     }
     // statistics of the input distribution
-    out.stat(if monotone { "hist:monotone" } else { "hist:non-monotone" });
-    out.stat(&format!("w:{}", h.w));
-    out.stat(&format!("records:{}", recs.len().min(9)));
+    v.stat(if monotone { "hist:monotone" } else { "hist:non-monotone" });
+    v.stat(&format!("w:{}", h.w));
+    v.stat(&format!("records:{}", recs.len().min(9)));
     if recs.iter().any(|r| r.metadata.len() > 1) {
-        out.stat("hist:some record merges several receptions");
+        v.stat("hist:some record merges several receptions");
     }
     if sp.pending_decodable > 0 {
-        out.stat("hist:pending at end");
+        v.stat("hist:pending at end");
+    }
+    v
+}
+
+#[derive(Default)]
+pub struct Verdict {
+    pub answer: String,
+    pub fails: Vec<(String, String)>,
+    pub stats: Vec<String>,
+}
+impl Verdict {
+    fn fail(&mut self, class: &str, detail: &str) {
+        if self.fails.len() < 8 {
+            self.fails.push((class.to_string(), detail.to_string()));
+        }
+    }
+    fn stat(&mut self, k: &str) {
+        self.stats.push(k.to_string());
+    }
+}
+
+/// One history: run it, record the correspondence case, report oracle failures.  A failing history
+/// is first shrunk (arrivals dropped one at a time while some oracle failure remains) and the
+/// shrunk history is reported before the original.
+pub fn judge(out: &mut Out, real: &mut Real, h: &Hist, interleaved: bool) {
+    let v = evaluate(real, h, interleaved);
+    let line = op_line(h);
+    out.case(&line, &v.answer);
+    for k in &v.stats {
+        out.stat(k);
+    }
+    if !v.fails.is_empty() {
+        if h.arrivals.len() > 3 {
+            let mut cur = h.clone();
+            let mut i = 0;
+            while i < cur.arrivals.len() {
+                let mut t = cur.clone();
+                t.arrivals.remove(i);
+                if evaluate(real, &t, interleaved).fails.is_empty() {
+                    i += 1;
+                } else {
+                    cur = t;
+                }
+            }
+            if cur.arrivals.len() < h.arrivals.len() {
+                let used: BTreeSet<usize> = cur.arrivals.iter().map(|a| a.fi).collect();
+                let map: Vec<usize> = used.iter().cloned().collect();
+                cur.frames = map.iter().map(|&i| cur.frames[i].clone()).collect();
+                for a in cur.arrivals.iter_mut() {
+                    a.fi = map.iter().position(|&i| i == a.fi).unwrap();
+                }
+                let sv = evaluate(real, &cur, interleaved);
+                let sl = op_line(&cur);
+                out.case(&sl, &sv.answer);
+                for (c, d) in &sv.fails {
+                    out.fail(c, &sl, &format!("(shrunk) {d}"));
+                }
+            }
+        }
+        for (c, d) in &v.fails {
+            out.fail(c, &line, d);
+        }
     }
 }
 
@@ -557,6 +619,28 @@ pub fn one(out: &mut Out, line: &str) {
 pub fn run(out: &mut Out, rng: &mut Rng, thorough: bool) {
     let mut real = Real::new();
     check_pool(out);
+    // --- a few fixed shapes (also the shortest witnesses of the usual mistakes)
+    for line in [
+        // a repetition after the window joins the group it closes
+        "dedup 400 8d406b902015a678d4d220aa4bda+ 0:0:1 1000:0:2",
+        // equal first arrivals leave in byte order of the frames
+        "dedup 400 8d406b902015a678d4d220aa4bda+,20001838ca3804+ 5:0:1 5:1:2 405:1:3",
+        // boundary of the window: expiry == now leaves, expiry == now + 1 stays
+        "dedup 400 8d406b902015a678d4d220aa4bda+,20001838ca3804+ 0:0:1 400:1:2",
+        "dedup 400 8d406b902015a678d4d220aa4bda+,20001838ca3804+ 0:0:1 399:1:2",
+        // a short frame followed by more bytes decodes with from_bytes (not with try_from)
+        "dedup 0 20001838ca380400+ 0:0:1",
+        "dedup 0 8d406b902015a678d4d220aa4bda00+ 0:0:1",
+        // sub-second time stamps: 1/4 s steps against a 250 ms window
+        "dedup 250 20001838ca3804+,5d484fdea248f5+ 1250:0:1 1500:1:2 1750:0:3 2000:1:4",
+        // +inf saturates to u128::MAX: w = 1 overflows, w = 0 does not
+        "dedup 1 20001838ca3804+ 340282366920938463463374607431768211455:0:1:7ff0000000000000",
+        "dedup 0 20001838ca3804+ 340282366920938463463374607431768211455:0:1:7ff0000000000000",
+        // NaN and negative stamps are 0 ms
+        "dedup 5 20001838ca3804+,5d484fdea248f5+ 0:0:1:7ff8000000000000 0:0:2:bff8000000000000 3:1:3 5:1:4",
+    ] {
+        one(out, line);
+    }
     // --- exhaustive: 2 frames x 4-point time grid (x 2 receivers) x 3 windows
     // grid in seconds; windows in ms: differences of 0, 1, 2, 3 s against windows of 0, 1, 2 s cover
     // "inside", "exactly at" and "past" the window.
@@ -576,9 +660,19 @@ pub fn run(out: &mut Out, rng: &mut Rng, thorough: bool) {
             exhaustive(out, &mut real, &pairs[0], &grid, w, len, true, false);
         }
     }
+    // the same with quarter-second stamps and windows, and with a frame that is a proper prefix of
+    // the other (DF4, DF4 + one byte: decodable by from_bytes only)
+    let qgrid = [1.0, 1.25, 1.5, 1.75];
+    let sublen = if thorough { 5 } else { 4 };
+    for w in [0u32, 250, 500] {
+        for len in 0..=sublen {
+            exhaustive(out, &mut real, &[4, 1], &qgrid, w, len, false, false);
+        }
+    }
     out.exhaustive.push(format!(
         "all histories of length <= {maxlen} over 2 frames (two pairs) x time grid {{0,1,2,3}} s x windows {{0,1000,2000}} ms; \
-         with a final flushing arrival up to length {}; with 2 receivers enumerated up to length {}",
+         with a final flushing arrival up to length {}; with 2 receivers enumerated up to length {}; \
+         length <= {sublen} over (DF4+1 byte, DF4) x {{1,1.25,1.5,1.75}} s x windows {{0,250,500}} ms",
         if thorough { 5 } else { 4 },
         if thorough { 4 } else { 3 }
     ));
@@ -587,14 +681,5 @@ pub fn run(out: &mut Out, rng: &mut Rng, thorough: bool) {
     for k in 0..n {
         let h = random_history(rng, k % 3 == 0);
         judge(out, &mut real, &h, k % 2 == 1);
-    }
-    // a few fixed shapes
-    for line in [
-        "dedup 400 8d406b902015a678d4d220aa4bda+ 0:0:1 1000:0:2",
-        "dedup 400 8d406b902015a678d4d220aa4bda+,20001838ca3804+ 5:0:1 5:1:2 405:1:3",
-        "dedup 1 20001838ca3804+ 340282366920938463463374607431768211455:0:1:7ff0000000000000",
-        "dedup 0 20001838ca3804+ 340282366920938463463374607431768211455:0:1:7ff0000000000000",
-    ] {
-        one(out, line);
     }
 }
